@@ -303,6 +303,16 @@ def run(ctx):
         upd = fb.fn(L["update"])
         look = fb.fn(L["lookup"])
         rem = fb.fn(L["remove"])
+        # ---- R1 key width: the by-id entry points take the id at the width the key has on the wire (a narrower parameter folds ids that
+        # differ in the upper bits onto one entry: the wrong element is found or removed)
+        kg = fb.fn_opt(L["key_call"])
+        kbits = ((kg.raw.get("rett") or {}).get("bits") if kg is not None else None) or L["bits"]
+        for role, g0 in (("lookup", look), ("remove", rem)):
+            pt0 = (g0.params[0]["t"] if g0.params else {})
+            res.check(pt0.get("k") == "int" and (pt0.get("bits") or 0) >= kbits and not pt0.get("sg"), "C16-R1", "%s:%s-id-width" % (short, role), g0.loc,
+                      "%s takes the id as an unsigned %d-bit value (key: %d bits)" % (g0.name.split("::")[-1], pt0.get("bits") or 0, kbits),
+                      "%s takes the id as `%s` while the key has %d bits: ids that differ only in the upper bits name the same entry" %
+                      (g0.name, pt0.get("s"), kbits))
         # ---- R5 lookup contract
         rets = look.returns()
         fi = [c for c in look.calls("std::find_if")]
